@@ -33,6 +33,15 @@ func init() {
 			"size, each in its own process: evaluate, probe, snapshot; second process: (load snapshot), probe, snapshot again; the load must " +
 			"succeed, the probes must agree, the two snapshot texts must be equal apart from the header line. A case is non-trivial when " +
 			"the pretty printer produced at least two different layouts over the margins (A1) or the session defines at least one item (A2). " +
+			"Inheritance worlds (lf|inh:... and snap|inh:...): three definitions - a distant one, a nearer one and a leaf, as a chain and as a " +
+			"leaf built on two mixins - and one property (the default of a flavor variable, a gettable / settable / inittable option, init keywords, the " +
+			"default init plist, :allow-other-keys, the documentation, a method, a :before daemon; a defclass :initform, :initarg, :reader / :writer / " +
+			":accessor name, slot and class documentation, :default-initargs, :allocation, a method of a generic function per class, call-next-method; " +
+			"the documentation of a generic function and of two of its methods; the default of a defstruct slot along an :include chain) that each " +
+			"level either does not mention or gives in one of two or three ways: EVERY assignment of the letters to the three levels, among them the leaf " +
+			"that repeats the distant value while the nearer one differs and the leaf that says again what it inherits. Each world is reloaded both ways and " +
+			"a probe table per level (variable / slot values of a new instance, accepted messages, readers and init keywords, documentation, method results) " +
+			"must be the same in the reloaded world - the text fixed point cannot see an omission that is made the same way in both snapshots. " +
 			"S9: a snapshot that (load) rejects is loaded again without the forms of slip's own swank package, then form by form; a snapshot with a " +
 			"derived flavor before its base is repaired before loading; (defpackage name) load forms are retried with the names quoted; every " +
 			"verdict obtained that way says so (mode=..., degraded=...)",
@@ -40,6 +49,7 @@ func init() {
 			"identity-compared kinds (lambda, function, package, flavor, class, generic) cannot be Equal to a rebuilt object; they are compared by behaviour on a fixed probe table and by the load form of the rebuilt object",
 			"documentation strings are compared modulo white space (the pretty printer re-flows documentation on purpose)",
 			"a top level symbol load form is taken as read, not evaluated (sliptest.LoadForm does the same)",
+			"a method without documentation may come back with the documentation of its generic function (pinned by the repository test TestDefmethodGenericLoadForm): the documentation compared for a method is its own or else the generic function's",
 			"a flavor's load form is not asked to carry its methods; the methods' own defining lists (Flavor.DefMethodList, what pretty-print flavor:method shows) are reloaded with it",
 			"go map iteration order is not controlled: snapshot sessions are repeated and order dependent verdicts are labelled flaky",
 		},
@@ -57,6 +67,10 @@ var required = []string{
 	"lf-kind:number", "lf-kind:string", "lf-kind:symbol", "lf-kind:character", "lf-kind:list", "lf-kind:list-dotted",
 	"lf-kind:vector", "lf-kind:array", "lf-kind:hash-table", "lf-kind:lambda", "lf-kind:defun", "lf-kind:defmacro", "lf-kind:call",
 	"lf-kind:package", "lf-kind:flavor", "lf-kind:flavor-instance", "lf-kind:clos-instance", "lf-kind:class", "lf-kind:generic",
+	"lf-kind:struct", "lf-inherit-world", "lf-inherit-world:fl", "lf-inherit-world:cl", "lf-inherit-world:st", "lf-inherit-leaf-repeats-distant",
+	"lf-inherit-leaf-restates-nearer", "lf-inherit-probes-compared",
+	"snap-inherit-session", "snap-inherit-session:fl", "snap-inherit-session:cl", "snap-inherit-leaf-repeats-distant", "snap-inherit-leaf-restates-nearer",
+	"snap-inherit-probes-compared",
 	"snap-session", "snap-stage1-ok", "snap-second-snapshot", "snap-probes-compared", "snap-forms-loaded", "snap-definitions-looked-for",
 }
 
@@ -75,15 +89,34 @@ func bound(tier string) string {
 	k := snapMaxSize(tier)
 	cnt := 0
 	enumerateSnap(tier, func(string) { cnt++ })
+	worlds, sessions := inhCount(tier)
+	n += worlds
+	var fams []string
+	for _, f := range inhFamilies {
+		vals := len(f.vals)
+		alpha := len(f.letters)
+		if tier == engine.Thorough {
+			vals += len(f.tvals)
+			alpha += len(f.tletter)
+		}
+		if vals == 0 {
+			continue
+		}
+		fams = append(fams, fmt.Sprintf("%s/%s %d^3 x %d x %d", f.lang, f.name, alpha, vals, len(f.shapes)))
+	}
 	return fmt.Sprintf("A1: %d objects/definition worlds (numbers, strings, symbols, characters, proper and dotted lists, vectors, arrays, "+
-		"hash tables, lambdas, defuns, macros, compiled calls, packages, flavors+methods, flavor and CLOS instances, classes, generic functions) "+
-		"x all %d right margins %d..%d (every distinct layout read back and evaluated); "+
+		"hash tables, lambdas, defuns, macros, compiled calls, packages, flavors+methods, flavor and CLOS instances, classes, generic functions, "+
+		"structures) x all %d right margins %d..%d (every distinct layout read back and evaluated), of which %d inheritance worlds = every assignment "+
+		"of the family's letters to the levels distant / nearer / leaf (letters^3 x value kinds or variable patterns x shapes chain, mixin; "+
+		"assignments that name a variable no level has are left out): %s; "+
 		"A2: all %d sessions = every subset of size <= %d of the %d item basic menu, every subset of size <= %d of the combined menu "+
 		"(basic + %d redefinition items: defun/defmacro/defvar+setq/defparameter/generic method/defclass/flavor method defined and then "+
 		"redefined before the snapshot; quick: the redefinition items alone), the full basic, redefinition and combined menus, 2 dedicated sessions (forward reference, "+
-		"flavor forest), each in 2-4 fresh processes, 24 snapshots of the unchanged session compared with each other, (load) of the whole "+
+		"flavor forest), 12 name-order chains, %d option sessions (flavor / class / generic function / condition / package options, each alone and all together), "+
+		"%d inheritance worlds (the same worlds as in A1 except the structures, each a session of its own), each in 2-4 fresh processes, 24 snapshots (inheritance worlds: 4) "+
+		"of the unchanged session compared with each other, (load) of the whole "+
 		"file, (load) without the forms of slip's own swank package, form by form load when both abort",
-		n, maxMargin-minMargin+1, minMargin, maxMargin, cnt, k, len(menu), redefMaxSize(tier), len(redefItems))
+		n, maxMargin-minMargin+1, minMargin, maxMargin, worlds, strings.Join(fams, ", "), cnt, k, len(menu), redefMaxSize(tier), len(redefItems), len(optionItems)+1, sessions)
 }
 
 func execCase(spec string) (res engine.Result) {
@@ -97,7 +130,7 @@ func execCase(spec string) (res engine.Result) {
 			res.Outcome = slip.ObjectString(v) + "   ;; " + lisp.Show(v)
 		}
 	case strings.HasPrefix(spec, "lf|"):
-		c := lfIndex[spec[3:]]
+		c := lfCaseOf(spec[3:])
 		if c == nil {
 			res.Fail("harness:bad-spec", spec)
 			return
